@@ -20,6 +20,7 @@ EXPLANATION = (
     "validating constructors accept exactly their documented domain. Plus (R3) crate-wide K4 guard typestate on the "
     "variation code and (R4) K14 taint from unordered samples to range bounds / empty gen_range. (INIT) init() evaluated with every field of self a distinct symbol inserts exactly the state types of a reviewed table, under the component's own instantiation, each built from exactly the documented field or empty / zero. (R10) DEMutation::execute with exact floats: one unevaluated mutant per group of 2y+1 = base + F * (sum of the pair differences), the other members consumed, malformed populations rejected unchanged. NOT decided: lengths "
     "beyond the bound for the data-dependent helpers, unequal-length parents, frequencies of the stochastic choices.")
+EXPLANATION += " " + "(R5 revised, R11 new) the recombination driver and the mutation() driver (for user-defined Mutation implementations) on the real stack with a population underneath, stack and generator owned by the current or the enclosing scope; (R8 revised) the DE crossovers on the real stack; the mutation components' rate / strength are cells of the typed store."
 ASSUMPTIONS = ["rand::seq::IteratorRandom::choose_multiple returns min(amount, len) distinct members in unspecified order (as documented)",
                "valid index tuples for circular swap are pairwise distinct and in range; valid populations have dimension >= 2 (> num_swap for SwapMutation)",
                "gen_bool(0) is never true, gen_bool(1) always; gen_range yields every member of a non-empty range and panics on an empty one"]
